@@ -54,8 +54,25 @@ class Rec(Collector):
                 raise LIB_ERRORS[self.boom](self.model)
             raise BOOM_KINDS[self.boom](f'boom a={self.a} b={self.b} t={t}')
         self.records.append((self.id, self.a, self.b, t, self.n))
-        if self.id == 'c1' and t + 1 >= self.life:
+        if self.id == 'c1' and t + 1 >= self.life and getattr(self.model, 'style', None) != 'own_done':
             self.model.complete()
+
+
+class Fin(Core.System):
+    """Runs first in every timestep; from timestep `life` on it declares the model finished through the model's own
+    criterion (BModel.is_running), not through complete()."""
+
+    def execute(self):
+        if self.model.systems.timestep >= self.model.life:
+            self.model.done = True
+
+
+class Jump(Core.System):
+    """Event-driven clock: runs last in timestep 1 and skips the clock two timesteps ahead."""
+
+    def execute(self):
+        if self.model.systems.timestep == 1:
+            self.model.systems.timestep += 2
 
 
 class BoomError(Exception):
@@ -78,8 +95,17 @@ LIB_ERROR_TYPES = tuple(BOOM_KINDS[k] for k in LIB_ERRORS)
 
 
 class BModel(Core.Model):
-    def __init__(self, a, b=0, life=2, boom=None, delay=0.0, jitter=0, warm=0, nocoll=None):
+    def is_running(self):
+        # a model may have its own notion of being finished
+        return super().is_running() and not getattr(self, 'done', False)
+
+    def __init__(self, a, b=0, life=2, boom=None, delay=0.0, jitter=0, warm=0, nocoll=None, style=None):
         super().__init__(seed=1)
+        self.style, self.life, self.done = style, life, False
+        if style == 'own_done':
+            self.systems.add_system(Fin('fin', self, priority=5))
+        elif style == 'jump':
+            self.systems.add_system(Jump('jump', self, priority=-5))
         # boom names the failing execution by its parameters and the exception kind ("a,b:Kind"); it fails in its
         # first timestep
         if boom is not None and boom.split(':')[0] == f'{a},{b}':
@@ -140,9 +166,21 @@ def pool_reuse_cases():
         yield {'leg': 'pool_reuse', 'sequence': [[10 * (i + 1), p] for i, p in enumerate(procs_seq)]}
 
 
-def ref_records(cid, a, b, life, limit):
-    steps = max(0, min(life, limit))
-    return [(cid, a, b, t, t + 1) for t in range(steps)]
+def ref_records(cid, a, b, life, limit, style=None):
+    """The execution's own clock, simulated: one collection per started timestep while the model runs and the clock
+    is below the step limit."""
+    out, t, n, running = [], 0, 0, life > 0
+    while running and t < limit:
+        n += 1
+        out.append((cid, a, b, t, n))
+        if style != 'own_done' and t + 1 >= life:
+            running = False            # c1 marked the model complete in this timestep
+        elif style == 'jump' and t == 1:
+            t += 2                     # the last system of timestep 1 skipped the clock ahead
+        t += 1
+        if style == 'own_done' and t >= life:
+            running = False            # the first system of timestep `life` declares the model finished
+    return out
 
 
 GRIDS = {'1x1': {'a': [1], 'b': 5}, '2x1': {'a': [1, 2], 'b': [5]}, '3x1': {'a': [1, 2, 3]},
@@ -166,13 +204,13 @@ def task_list(gname, reps, life):
     return combos * reps
 
 
-def expected_result(task, coll, life, limit):
+def expected_result(task, coll, life, limit, style=None):
     a, b = task
     if coll == 'none':
         return None
     if coll == 'c0':
-        return ref_records('c0', a, b, life, limit)
-    return {'c0': ref_records('c0', a, b, life, limit), 'c1': ref_records('c1', a, b, life, limit)}
+        return ref_records('c0', a, b, life, limit, style)
+    return {'c0': ref_records('c0', a, b, life, limit, style), 'c1': ref_records('c1', a, b, life, limit, style)}
 
 
 def run_batch(case, cache=None):
@@ -190,6 +228,8 @@ def run_batch(case, cache=None):
     if case.get('warm'):
         params['warm'] = case['warm']
         eff_limit = max(eff_limit, case['warm'])      # warm-up steps happened before the limit was looked at
+    if case.get('style'):
+        params['style'] = case['style']
     if case.get('nocoll') is not None:
         params['nocoll'] = f'{tasks[case["nocoll"]][0]},{tasks[case["nocoll"]][1]}'
     if boom is not None:
@@ -233,7 +273,7 @@ def run_batch(case, cache=None):
         return ('raised', type(raised).__name__)
     if raised is not None:
         raise Violation(f'batch_run raised {raised!r} although no execution fails')
-    exp = [expected_result(tasks[i], coll, life, eff_limit) for i in order]
+    exp = [expected_result(tasks[i], coll, life, eff_limit, case.get('style')) for i in order]
     exp = [e for e in exp if e is not None]
     if procs != 1 and isinstance(got, list):
         # with several processes the order of the returned list is not part of the claim: compare as multisets
@@ -281,6 +321,13 @@ def extra_cases():
         for procs, oc in ((1, None), (2, [[[0], [1]], [1, 0]])):
             yield {'leg': 'warm', 'grid': '2x1', 'reps': 1, 'life': life, 'limit': limit, 'collectors': 'c0', 'warm': 3,
                    'procs': procs, 'outcome': oc}
+    # models that finish by their own criterion (is_running overridden) / whose clock jumps ahead (event-driven)
+    for style in ('own_done', 'jump'):
+        for life, limit in ((3, None), (3, 2), (3, 3), (3, 7), (6, 2), (6, 3), (6, 4), (6, 5), (2, None), (1, 3), (9, 4)):
+            for coll in ('c0', 'list'):
+                for procs, oc in ((1, None), (2, [[[0], [1]], [1, 0]])):
+                    yield {'leg': 'own_clock', 'grid': '2x1', 'reps': 1, 'life': life, 'limit': limit, 'collectors': coll,
+                           'style': style, 'procs': procs, 'outcome': oc}
     # an execution whose model does not have the requested collector, at every batch position
     for gname, n in (('2x1', 2), ('3x1', 3), ('2x2', 4)):
         for pos in range(n):
